@@ -235,6 +235,10 @@ def show(t, depth=0):
         if t[2] == (((), Fraction(1)),):
             return '[' + n + ']'
         return '[(%s) / (%s)]' % (n, ' + '.join(mono(m, c) for m, c in t[2]))
+    if k in ('SUM', 'MEAN'):
+        return '%s[%s](%s)' % (k, show(t[1], d), show(t[2], d))
+    if k == 'SEL':
+        return 'SEL[%s=%s](%s)' % (t[1], show(t[2], d), show(t[3], d))
     if k == 'star':
         return '*' + show(t[1], d)
     if k == 'copy':
